@@ -8,23 +8,35 @@ Obs == ndJsonDeserialize(ObsFile)
 VarsObs == ndJsonDeserialize(VarsObsFile)[1].vars
 VarsTie == \A n \in DOMAIN Vars : VarsObs[n].k = "ok" /\ SeqSame(VarsObs[n].items, Vars[n])
 ASSUME VarsTie
+VarsObsB == ndJsonDeserialize(VarsObsFile)[1].varsB
+VarsTieB == \A n \in DOMAIN VarsB : VarsObsB[n].k = "ok" /\ SeqSame(VarsObsB[n].items, VarsB[n])
+ASSUME VarsTieB
 NObs == Len(Obs)
 W == 16
 
 Outer(e) == IF e.k = "call" THEN e.f ELSE IF e.k = "bin" THEN e.op ELSE IF e.k = "typeop" THEN e.op ELSE e.k
 
+Agrees(out, r) ==
+  /\ ~IsFailure(out)
+  /\ CASE r.k = "any" -> TRUE
+       [] r.k = "eoe" -> out.k \in {"err", "cerr"} \/ (out.k = "ok" /\ Len(out.items) = 0)
+       [] r.k = "err" -> out.k \in {"err", "cerr"}
+       [] r.k = "ok"  -> out.k = "ok" /\ SeqSame(out.items, r.items)
+WantKind(r) == IF r.k = "ok" THEN "ok" \o ToString(Len(r.items)) ELSE r.k
+
+(* o.out: the first evaluation, on the inputs; o.outB: the SAME compiled expression evaluated again on the other inputs *)
+(* (FPMachine!InputB, VarsB): it must be what the machine computes for those, whatever was evaluated before            *)
 Verdict(o) ==
   LET r == Eval(o.ast, Env, Input)
+      rB == Eval(o.ast, EnvB, InputB)
       textOk == Render(o.ast) = o.src
-      good == /\ ~IsFailure(o.out)
-              /\ CASE r.k = "any" -> TRUE
-                   [] r.k = "eoe" -> o.out.k \in {"err", "cerr"} \/ (o.out.k = "ok" /\ Len(o.out.items) = 0)
-                   [] r.k = "err" -> o.out.k \in {"err", "cerr"}
-                   [] r.k = "ok"  -> o.out.k = "ok" /\ SeqSame(o.out.items, r.items)
-  IN [id |-> o.id, ok |-> good /\ textOk, open |-> r.k = "any",
-      sig |-> IF good /\ textOk THEN "" ELSE IF ~textOk THEN "malformed|rendering-differs"
-              ELSE "machine|" \o o.prop \o "|" \o Outer(o.ast) \o "|got-" \o KindOf(o.out) \o "|want-" \o (IF r.k = "ok" THEN "ok" \o ToString(Len(r.items)) ELSE r.k),
-      want |-> IF r.k = "ok" THEN r.items ELSE <<>>]
+      good == Agrees(o.out, r)
+      goodB == o.out.k = "cerr" \/ Agrees(o.outB, rB)
+  IN [id |-> o.id, ok |-> good /\ goodB /\ textOk, open |-> r.k = "any",
+      sig |-> IF good /\ goodB /\ textOk THEN "" ELSE IF ~textOk THEN "malformed|rendering-differs"
+              ELSE IF ~good THEN "machine|" \o o.prop \o "|" \o Outer(o.ast) \o "|got-" \o KindOf(o.out) \o "|want-" \o WantKind(r)
+              ELSE "machine|" \o o.prop \o "|" \o Outer(o.ast) \o "|reused-on-other-inputs|got-" \o KindOf(o.outB) \o "|want-" \o WantKind(rB),
+      want |-> IF ~good THEN (IF r.k = "ok" THEN r.items ELSE <<>>) ELSE IF rB.k = "ok" THEN rB.items ELSE <<>>]
 
 VARIABLE i
 JInit == i \in 1..(IF NObs < W THEN NObs ELSE W) /\ PrintT(ToJson(Verdict(Obs[i])))
